@@ -6,6 +6,7 @@ import (
 	"go/constant"
 	"go/token"
 	"go/types"
+	"os"
 	"sort"
 	"strings"
 
@@ -115,6 +116,8 @@ type scanFunc struct {
 	problems      []string
 	undecided     []string
 	boolResultIdx int
+	opaqueSkip    bool
+	enumVars      map[types.Object]bool // non-cursor integer locals assigned only constants (mode/kind flags)
 }
 
 // byteExpr: e denotes s[i] (cursor-relative) or input[n] with delta==0.
@@ -185,6 +188,19 @@ func (sf *scanFunc) evalCond(e ast.Expr, st scanAbs) []outcome {
 			}
 			return res
 		case token.EQL, token.NEQ, token.LSS, token.LEQ, token.GTR, token.GEQ:
+			if len(sf.enumVars) > 0 && !sf.mentionsCursor(x) {
+				env := map[types.Object]int64{}
+				for o := range sf.enumVars {
+					if v, known := counterGet(st.counters, "enum:"+o.Name()); known {
+						env[o] = int64(v)
+					}
+				}
+				if v, ok := evalBool(sf.info, x, env); ok {
+					return []outcome{{st, v}}
+				} else if os.Getenv("VERIF_DEBUG") != "" {
+					fmt.Println("E7 enum cond undecided:", exprStr(x), env, st.counters)
+				}
+			}
 			if outs, ok := sf.evalCmp(x, st); ok {
 				return outs
 			}
@@ -503,6 +519,7 @@ type scanResult struct {
 	problems   []string
 	undecided  []string
 	suffixUsed bool
+	opaqueSkip bool
 }
 
 // analyseScanner builds the NFA of a scanner function.
@@ -578,6 +595,55 @@ func (c *Ctx) analyseScanner(fi *FuncInfo) *scanResult {
 		}
 		return true
 	})
+	// enum variables: integer locals (not counters) every assignment of which is a constant
+	{
+		cand := map[types.Object]bool{}
+		bad := map[types.Object]bool{}
+		walk(fi.Decl.Body, func(n ast.Node) bool {
+			switch x := n.(type) {
+			case *ast.AssignStmt:
+				for i, l := range x.Lhs {
+					id, ok := l.(*ast.Ident)
+					if !ok {
+						continue
+					}
+					o := objOf(info, id)
+					if o == nil {
+						continue
+					}
+					b, isBasic := o.Type().Underlying().(*types.Basic)
+					if !isBasic || b.Info()&types.IsInteger == 0 {
+						continue
+					}
+					if len(x.Lhs) == len(x.Rhs) && (x.Tok == token.DEFINE || x.Tok == token.ASSIGN) {
+						if _, isC := constInt(info, x.Rhs[i]); isC {
+							cand[o] = true
+							continue
+						}
+					}
+					bad[o] = true
+				}
+			case *ast.IncDecStmt:
+				if id, ok := x.X.(*ast.Ident); ok {
+					bad[objOf(info, id)] = true
+				}
+			case *ast.UnaryExpr:
+				if x.Op == token.AND {
+					if id, ok := unparen(x.X).(*ast.Ident); ok {
+						bad[objOf(info, id)] = true
+					}
+				}
+			}
+			return true
+		})
+		sf.enumVars = map[types.Object]bool{}
+		for o := range cand {
+			if !bad[o] && o != sf.cursor && o != sf.counter && o != sf.sizeVar {
+				sf.enumVars[o] = true
+				delete(sf.bounded, o) // only ever assigned constants: tracked exactly, not as a capped counter
+			}
+		}
+	}
 	if sf.cursor == nil {
 		res.undecided = append(res.undecided, "no cursor variable (x = x[k:]) found")
 		return res
@@ -716,6 +782,7 @@ func (c *Ctx) analyseScanner(fi *FuncInfo) *scanResult {
 	_ = boolIdx
 	res.nfa = nfa
 	res.nodes = len(nfa.edges)
+	res.opaqueSkip = sf.opaqueSkip
 	res.problems = append(res.problems, sf.problems...)
 	res.undecided = append(res.undecided, sf.undecided...)
 	return res
@@ -796,7 +863,7 @@ func (sf *scanFunc) step(node ast.Node, st scanAbs, res *scanResult) []stepOut {
 							return nil
 						}
 						if st.lo < k {
-							sf.problems = append(sf.problems, fmt.Sprintf("`%s` at %s executes where only len >= %d is established: slice bounds out of range is possible", exprOrStmt(x), sf.c.P.Pos(x), st.lo))
+							sf.problems = append(sf.problems, fmt.Sprintf("`%s` at %s executes where only len >= %d is established: slice bounds out of range is possible%s", exprOrStmt(x), sf.c.P.Pos(x), st.lo, dbgCounters(st)))
 							return nil
 						}
 						var labs []bset
@@ -851,6 +918,20 @@ func (sf *scanFunc) step(node ast.Node, st scanAbs, res *scanResult) []stepOut {
 				if objOf(info, src) == sf.input {
 					return []stepOut{{st: st}}
 				}
+				// cursor = f(cursor, …) with f returning []byte: an opaque skip of
+				// some bytes (whitespace/comment skipper). Nothing is known about
+				// the remaining length or the next bytes afterwards. The extracted
+				// language is no longer comparable with a grammar (opaqueSkip),
+				// but the bounds analysis stays sound.
+				if call, ok := src.(*ast.CallExpr); ok && len(call.Args) >= 1 && objOf(info, call.Args[0]) == sf.cursor && isByteSlice(info.TypeOf(call)) {
+					sf.opaqueSkip = true
+					n := st
+					n.lo, n.hi = 0, unbounded
+					for i := range n.look {
+						n.look[i] = fullSet()
+					}
+					return []stepOut{{st: n}}
+				}
 				sf.undecided = append(sf.undecided, "cursor assigned from something other than the input at "+sf.c.P.Pos(x))
 				return nil
 			}
@@ -867,6 +948,13 @@ func (sf *scanFunc) step(node ast.Node, st scanAbs, res *scanResult) []stepOut {
 				}
 				sf.undecided = append(sf.undecided, "consumed counter updated outside the idiom at "+sf.c.P.Pos(x))
 				return nil
+			}
+			// mode/kind flags: v := const / v = const
+			if lo != nil && sf.enumVars[lo] && (x.Tok == token.DEFINE || x.Tok == token.ASSIGN) {
+				if v, isC := constInt(info, x.Rhs[0]); isC {
+					st.counters = counterSet(st.counters, "enum:"+lid.Name, int(v))
+					return []stepOut{{st: st}}
+				}
 			}
 			// bounded counters: n := c / n = c / n += c
 			if lo != nil {
@@ -1198,10 +1286,11 @@ func included(a *scanNFA, accA map[int]bool, b *scanNFA, accB map[int]bool) (boo
 // ---------------------------------------------------------------- rule
 
 type scannerSpec struct {
-	key       string
-	regex     string
-	what      string
-	usePrefix bool // check consumed prefixes at any accepting return (token scanners with trailing input)
+	key        string
+	regex      string
+	what       string
+	usePrefix  bool // check consumed prefixes at any accepting return (token scanners with trailing input)
+	boundsOnly bool // decide only that no index/slice can go out of range (no reference grammar)
 }
 
 func (c *Ctx) ruleScanner(rule string, sp scannerSpec) {
@@ -1224,6 +1313,13 @@ func (c *Ctx) ruleScanner(rule string, sp scannerSpec) {
 	}
 	if len(res.problems) == 0 {
 		R.OK(rule, sp.key+" bounds", pos, fmt.Sprintf("every s[i] / s[k:] is covered by an established length bound (%d automaton nodes)", res.nodes))
+	}
+	if sp.boundsOnly {
+		return
+	}
+	if res.opaqueSkip {
+		R.Unk(rule, sp.key+" grammar", pos, "the scanner skips bytes through a helper: its language cannot be compared with a grammar")
+		return
 	}
 	ref := compileRegex(sp.regex)
 	// soundness: everything the code may accept is in the grammar
@@ -1251,4 +1347,11 @@ func dedupe(s []string) []string {
 	}
 	sort.Strings(out)
 	return out
+}
+
+func dbgCounters(st scanAbs) string {
+	if os.Getenv("VERIF_DEBUG") != "" {
+		return " [state " + st.counters + "]"
+	}
+	return ""
 }
